@@ -1264,7 +1264,10 @@ route_eval_match(struct route_ctx *ctx, const struct match_set *match_set,
 			"CHECK: pname, match_set->type: %u, not: %d, outbound: %u",
 			match_type, match_set->not, match_set->outbound);
 #endif
-		if (is_wan && equal16(match_set->pname, pname))
+		// An unknown process (empty name) matches no rule, like the
+		// userspace matcher (processName[0] != 0).
+		if (is_wan && *(const __u8 *)pname != 0 &&
+		    equal16(match_set->pname, pname))
 			ctx->route_state |= ROUTE_STATE_GOOD_SUBRULE;
 		break;
 	case MatchType_Dscp:
